@@ -25,6 +25,17 @@ partial def splineStep (ds : DualState) (st : SplineState) (toks : List String) 
     let x ← parseF? x; let i ← i.toNat?; let k ← k.toNat?; let m ← m.toNat?; let org ← parseOrg? org
     let t ← parseFs? ts
     pure (st, fmtF (bspldnev t x m i k org))
+  | "bspldual" :: ord :: m :: x :: dx :: ddx :: i :: k :: _nt :: ts => do
+    let x ← parseF? x; let dx ← parseF? dx; let ddx ← parseF? ddx
+    let i ← i.toNat?; let k ← k.toNat?
+    let mm ← if m == "-" then some 0 else m.toNat?
+    let t ← parseFs? ts
+    if ord == "1" then
+      let xd : Dual Float := ⟨x, ["x", "y"], [dx, 0.5]⟩
+      pure (st, fmtNum (.dual (bspldnevDual t xd i k mm)))
+    else
+      let xd : Dual2 Float := ⟨x, ["x", "y"], [dx, 0.5], [[ddx, 0.25], [0.25, -1.0]]⟩
+      pure (st, fmtNum (.dual2 (bspldnevDual2 t xd i k mm)))
   | "basisrow" :: x :: k :: _nt :: ts => do
     let x ← parseF? x; let k ← k.toNat?
     let t ← parseFs? ts
